@@ -109,16 +109,40 @@ Definition shift_r (l r p : Z) : outcome Z :=
        else let r'' := p - r' in
             if r'' <=? top then shr_direct l r'' p else OutOfFuel.
 
-(* exponent of the power of two built by a direct shift (None: none built) *)
-Definition shl_built (r p : Z) : option Z :=
+(* The mutual recursion of shift_l / shift_r AS WRITTEN (one Fixpoint on fuel, [left] says which
+   of the two functions is running), instrumented with the work it does:
+     sw_calls  number of calls of shift_l / shift_r made (the entry call included),
+     sw_built  exponent k of the power of two `num_traits::pow(two, usize_repr)` it materialises
+               (None: none is built - error, or the early `return Ok(0)`),
+     sw_bits   bit size of the largest intermediate value it computes from that power
+               (`left * 2^k` for a left shift, `2^k` itself for a right shift; 0 when none).
+   The leaves are shl_direct / shr_direct themselves, so that the value part cannot drift from the
+   functions the refinement theorems are about (Proofs.FieldProofs.shift_w_value proves that the value
+   is shift_l / shift_r for every fuel >= 2 and ALL integer operands). *)
+Record shift_work := { sw_calls : nat; sw_built : option Z; sw_bits : Z }.
+
+Definition direct_work (left : bool) (l r p : Z) : shift_work :=
   match to_usize r with
-  | Some k => if radix_len p <=? k then None else Some k
-  | None => None
+  | None => {| sw_calls := 1; sw_built := None; sw_bits := 0 |}
+  | Some k =>
+    if left then
+      if radix_len p <=? k then {| sw_calls := 1; sw_built := None; sw_bits := 0 |}
+      else {| sw_calls := 1; sw_built := Some k; sw_bits := bits (l * 2 ^ k) |}
+    else
+      if bits l <=? k then {| sw_calls := 1; sw_built := None; sw_bits := 0 |}
+      else {| sw_calls := 1; sw_built := Some k; sw_bits := bits (2 ^ k) |}
   end.
-Definition shr_built (l r : Z) : option Z :=
-  match to_usize r with
-  | Some k => if bits l <=? k then None else Some k
-  | None => None
+
+Fixpoint shift_w (fuel : nat) (left : bool) (l r p : Z) : outcome Z * shift_work :=
+  match fuel with
+  | O => (OutOfFuel, {| sw_calls := 0; sw_built := None; sw_bits := 0 |})
+  | S n =>
+    let top := Z.quot p 2 in
+    if r <=? top then
+      ((if left then shl_direct l r p else shr_direct l r p), direct_work left l r p)
+    else
+      let '(res, w) := shift_w n (negb left) l (p - r) p in
+      (res, {| sw_calls := S (sw_calls w); sw_built := sw_built w; sw_bits := sw_bits w |})
   end.
 
 Definition bit_or (l r p : Z) : Z := modulus (Z.lor l r) p.
